@@ -419,4 +419,33 @@ example : ∃ a, assetsVal (.node .assets [.leaf .none, .leaf .none, .leaf (.num
       upsert, fitsI128, inI128, i128Min, i128Max, retainNZ]
   · simp [amt, get?]
 
+/-! ### how a reduced asset value is written -/
+
+/-- No entry holds zero (what `retain` leaves). -/
+def NZ (a : Assets) : Prop := ∀ kv ∈ a, kv.2 ≠ 0
+
+theorem NZ_nil : NZ [] := fun _ h => by cases h
+
+theorem NZ_retainNZ (a : Assets) : NZ (retainNZ a) := by
+  intro kv h
+  unfold retainNZ at h
+  simpa using (List.mem_filter.mp h).2
+
+/-- The two ways the reducer leaves a constant asset value: the single entry a constructor lowers to (lovelace, or a
+token with constant policy and name), or the canonical list written for a value - one entry per class, none zero. -/
+inductive RForm : Expr → Prop
+  | ada (v : Int) : RForm (.node .assets [.leaf .none, .leaf .none, .leaf (.number v)])
+  | tok (pb nb : Bytes) (v : Int) : pb ≠ [] →
+      RForm (.node .assets [.leaf (.bytes pb), .leaf (.bytes nb), .leaf (.number v)])
+  | canon (a : Assets) : Good a → NZ a → RForm (assetsNode a)
+
+theorem RForm_add {x y : Expr} {a b : Assets} (hx : assetsVal x = some a) (hy : assetsVal y = some b)
+    (hf : ∀ k, inI128 (amt a k + amt b k) = true) : RForm (assetsNode (retainNZ (addRaw a b))) := by
+  have ga := assetsVal_good hx
+  have gb := assetsVal_good hy
+  have hfit : fitsI128 (addRaw a b) = true :=
+    fits_of_amt (WF_addRaw ga.wf) fun k => by rw [amt_addRaw gb.wf]; exact hf k
+  exact RForm.canon _ (Good_retainNZ (WF_addRaw ga.wf) (ProperKeys_foldl_upsert id b gb.proper ga.proper) hfit)
+    (NZ_retainNZ _)
+
 end Tx3
